@@ -167,6 +167,22 @@ Section Sound.
       eapply IH; [|eauto]. econstructor; eauto. eapply gstep_sound; eauto.
   Qed.
 
+  (* In every reachable state of the abstract system (any schedule of block creation, Byzantine
+     votes, honest votes, timeouts and commits) honest ledgers are chains and prefix related. *)
+  Theorem reach_safe s :
+    reach s ->
+    forall r1 r2, honest r1 = true -> honest r2 = true ->
+      (prefix (log (loc s r1)) (log (loc s r2)) \/ prefix (log (loc s r2)) (log (loc s r1))) /\
+      linked genesis (log (loc s r1)) /\ NoDup (log (loc s r1)).
+  Proof.
+    intros R r1 r2 H1 H2.
+    destruct cfg_parts as (_ & _ & _ & Gv & Gp & Gq).
+    split.
+    - eapply (ledgers_prefix rs member honest qsize quorum_inter_inst quorum_has_honest_inst genesis Gv Gp Gq); eauto.
+    - destruct (ledger_chain rs member honest qsize quorum_inter_inst quorum_has_honest_inst genesis Gv Gp Gq s r1 R H1)
+        as (L & N & _). auto.
+  Qed.
+
   (* Every history accepted by the validator ends in a state where all honest ledgers are
      hash-linked chains from genesis and pairwise prefix related. *)
   Theorem run_safe es s :
